@@ -144,6 +144,15 @@ func c17Replay(check string, raw json.RawMessage) ([]disc, error) {
 	}
 	e := newC17Env(cs.Backend)
 	defer e.st.Close()
+	if f := strings.SplitN(cs.Name, " /", 2); len(f) == 2 && (f[0] == "PUT" || f[0] == "POST" || f[0] == "DELETE" || f[0] == "GET") {
+		// a request that is not create-bucket (the no-create probes)
+		r := s3x.Do(e.st.Handler, &s3x.Req{Method: f[0], RawTarget: "/" + f[1], Body: []byte("x")})
+		var ds []disc
+		if r.Panic != "" {
+			ds = dsc("panic", "%s: %s at %s", cs.Name, r.Panic, r.PanicSite)
+		}
+		return append(ds, e.checkList()...), nil
+	}
 	ds, _, _ := e.create(cs.Name)
 	ds = append(ds, e.checkList()...)
 	return ds, nil
@@ -272,6 +281,30 @@ func c17Run(t *testing.T, c *evid.Collector) {
 			rt.Fatalf("C17 violated for %q", name)
 		}
 	})
+	// requests other than create-bucket never make a bucket appear, however they spell the bucket
+	for _, k := range kinds {
+		e := envs[k]
+		for _, probe := range [][2]string{{"PUT", "/./ghost-a/obj"}, {"PUT", "/../ghost-b/obj"}, {"PUT", "/%2e/ghost-c/obj"}, {"PUT", "/%2E%2E/ghost-d/obj"}, {"PUT", "/never-created/obj"},
+			{"PUT", "/GHOST/obj"}, {"PUT", "/ghost_e/obj"}, {"POST", "/ghost-f/obj?uploads"}, {"PUT", "/ghost-g?versioning"}, {"DELETE", "/ghost-h/obj"}, {"GET", "/ghost-i?uploads"},
+			{"PUT", "/./ghost-k/d/obj"}, {"PUT", "//ghost-l/obj"}, {"POST", "/ghost-m?delete"}} {
+			body := []byte("x")
+			if strings.HasSuffix(probe[1], "?versioning") {
+				body = []byte(`<VersioningConfiguration><Status>Enabled</Status></VersioningConfiguration>`)
+			}
+			if strings.HasSuffix(probe[1], "?delete") {
+				body = []byte(`<Delete><Object><Key>obj</Key></Object></Delete>`)
+			}
+			r := s3x.Do(e.st.Handler, &s3x.Req{Method: probe[0], RawTarget: probe[1], Body: body})
+			cs := c17Case{k, probe[0] + " " + probe[1]}
+			var ds []disc
+			if r.Panic != "" {
+				ds = dsc("panic", "backend=%s %s %s: %s at %s", k, probe[0], probe[1], r.Panic, r.PanicSite)
+			}
+			ds = append(ds, e.checkList()...)
+			c.Case(evid.FP(string(k), "probe", probe[0], probe[1]), true, func() interface{} { return cs }, "backend:"+string(k), "src:no-create-probe")
+			report(c, "listbuckets", ds, cs)
+		}
+	}
 	for _, k := range kinds {
 		report(c, "listbuckets", envs[k].checkList(), c17Case{k, "(final)"})
 	}
